@@ -50,8 +50,8 @@ from fractions import Fraction
 from common import impl_error, Infra
 
 PROP = "C14"
-MODULES = ["C14"]
-GEN = ["Mbxml"]
+MODULES = ["C14", "C14t"]
+GEN = ["Mbxml", "TranslMbxml"]
 MATCHERS = {}
 
 U_MAX = 2**32 - 1
@@ -1889,6 +1889,59 @@ def run_ambient(ctx, M):
                         + json.dumps([d for d in ctx.disagreements if d["component"].startswith("calendar")][:3]))
 
 
+def run_transl(ctx, M):
+    """Differential validation of the source translator (tools/py2lean.py) and its prelude (Model/Py.lean), trusted base of
+    Props/C14t: the readers TRANSLATED from the source (`Gen/TranslMbxml.lean`, driver operations `t.mb.*`) against the real
+    read_uintvar / read_sintvar / read_uint8 / read_opaque / read_opaque_defined_size on octet strings made of continuation /
+    terminal / sign-bit octets and random ones, at read positions inside, at, past the end and NEGATIVE (Python counts them
+    from the end; a run of continuation octets then wraps around to index 0), with sizes below zero and past the end.
+    A difference is a translator or prelude bug, never a finding about /repo."""
+    if ctx.search_only or not ctx.driver_ok:
+        return
+    from common import impl_error as _ie
+    rng = ctx.rng
+
+    def hx(b):
+        return b.hex() if b else "-"
+
+    def res(fn, *a):
+        try:
+            r = fn(*a)
+        except Exception as e:  # noqa
+            return _ie(e)
+        return " ".join(hx(x) if isinstance(x, (bytes, bytearray)) else str(x) for x in r)
+
+    pairs = []
+    n = 0
+    special = [0x80, 0x81, 0xFF, 0x7F, 0x00, 0x40, 0xC0, 0x3F, 0xBF, 0x01]
+    for _ in range(ctx.budget(1500, 15000)):
+        k = rng.choice([0, 1, 2, 3, 4, 5, 6, 8, 12, 30])
+        d = bytes(rng.choice(special) if rng.random() < 0.7 else rng.randrange(256) for _ in range(k))
+        i = rng.choice([0, 1, 2, -1, -2, -k, -k - 1, k, k - 1, k + 1, rng.randrange(-35, 35)])
+        size = rng.choice([0, 1, 2, k, k + 3, -1, -k, rng.randrange(-5, 40)])
+        pairs.append((f"t.mb.ruint {hx(d)} {i}", res(M.read_uintvar, d, i)))
+        pairs.append((f"t.mb.rsint {hx(d)} {i}", res(M.read_sintvar, d, i)))
+        pairs.append((f"t.mb.ruint8 {hx(d)} {i}", res(M.read_uint8, d, i)))
+        pairs.append((f"t.mb.ropaque {hx(d)} {i}", res(M.read_opaque, d, i)))
+        pairs.append((f"t.mb.ropaquen {hx(d)} {i} {size}", res(M.read_opaque_defined_size, d, i, size)))
+        n += 1
+    # what the writers produce, embedded
+    for _ in range(ctx.budget(300, 3000)):
+        v = rng.getrandbits(rng.randrange(1, 33))
+        pre, post = bytes(rng.randrange(256) for _ in range(rng.randrange(0, 4))), bytes(rng.randrange(256) for _ in range(rng.randrange(0, 4)))
+        try:
+            d = pre + M.write_uintvar(v) + post
+            e = pre + M.write_sintvar(-v if rng.random() < 0.5 else v >> 1) + post
+        except Exception:
+            continue
+        pairs.append((f"t.mb.ruint {hx(d)} {len(pre)}", res(M.read_uintvar, d, len(pre))))
+        pairs.append((f"t.mb.rsint {hx(e)} {len(pre)}", res(M.read_sintvar, e, len(pre))))
+        n += 1
+    for name in ("read_uintvar", "read_sintvar", "read_uint8", "read_opaque", "read_opaque_defined_size"):
+        ctx.count("transl:" + name, n)
+    ctx.correspond("transl", pairs)
+
+
 def run(ctx):
     logging.disable(logging.CRITICAL)
     M = _mbxml()
@@ -1923,6 +1976,12 @@ def run(ctx):
         "PYTHONHASHSEED=4242) re-runs the sample against the parent's expected values.  random octets through all four "
         "readers.  A case is non-trivial unless the value is 0; distinct = distinct (codec, value[, precision][, setting])."
     )
+    ctx.trusted_base += [
+        "tools/py2lean.py + tools/extract_transl.py (source translator: Gen/TranslMbxml.lean from inspect.getsource of the MBXML readers) and "
+        "lean/DmrVerif/Model/Py.lean (semantics of the Python subset); validated on every run by the differential operations t.mb.* (run_transl); "
+        "Props/C14t proves read_uintvar / read_uint8 / read_opaque / read_opaque_defined_size equal to the model for all byte strings and natural positions",
+    ]
+    run_transl(ctx, M)
     ctx.trusted_base += [
         "Lean 4.33 kernel",
         "tools/extract_mbxml.py (UINTVAR_MAX / SINTVAR_MAX read from the class)",
